@@ -101,6 +101,7 @@ def phaseMacros (b : P) (fs : T) : String → List Macro
   | "stamp" => b.outs.map (fun i => ⟨s!"stamp-out:{i}", (stampS b i).map (.out i)⟩) ++
                [⟨"stamp-md", if b.mdUseFb then [.mdFbTrunc, .mdFbFull b.stamp] else [.mdSetAttr b.stamp]⟩]
   | "cache" => if b.cache then [⟨"cache-store", [.cacheStore]⟩] else []
+  | "unstamp" => b.outs.map fun i => ⟨s!"unstamp-out:{i}", [.out i .clear]⟩     -- removeRuleHash (since the repair)
   | _ => []
 
 def macros (forced : Bool) (b : P) (fs : T) : List Macro :=
